@@ -9,8 +9,14 @@ import OjgVerif.Gen.JpathFacts
 * Every evaluator is the shared traversal skeleton `evalSel` over per-evaluator *selection functions*. For `Get`
   the skeleton is proved equal to the work-list machine (C05.machine_eq_skeleton); for the others it is tied to
   the code by the correspondence run only.
-* FirstFound and Has are **not** independent programs in the model: where get.go/has.go copy Get's code, the
-  model reuses Get's functions, so part of `C11_first`/`C11_has` is definitional. The code paths the model has
+* Since round 3 FirstFound, Has, Locate and Walk ALSO exist as programs of their own (`JPath/Machines.lean`:
+  `firstMach`, `hasMach` — the work-list loops of get.go FirstFound / has.go transcribed round by round;
+  `locateRec` with the budget `max`, `walkRecM` — the recursion of the `locate`/`Walk` methods). The sections
+  "FirstFound and Has as programs of their own", "Locate and Walk as the recursive programs they are" and
+  "The machines on every representation" prove them equal to the Get machine's head / non-emptiness and to the
+  skeleton models below; those theorems are not definitional.
+* In the SKELETON models `firstM`/`hasM` FirstFound and Has are **not** independent programs: where get.go/has.go
+  copy Get's code, the skeleton reuses Get's functions, so part of `C11_first`/`C11_has` is definitional. The code paths the model has
   of its own are: the last-position branches (`First.last`: first element only; the slice test `start < end`
   / `end < start` and `tv[start]`, `First.sliceLast`), the inner slice push (`First.sliceInner`), on typed data
   `reflectGetWildOne` (`First.wildOne`, flag `firstTypedWildOne`) and `reflectGetNth(tv, start)` (flag
@@ -552,6 +558,29 @@ theorem C11_has_machine_skeleton (cfg : Cfg) (rep : Rep) (hd : cfg.hasTypedDesce
     hasMach cfg rep x d = hasM cfg rep x d :=
   hasMach_eq_hasM cfg rep hd hh hcut x d ht
 
+/-- **FirstFound and Has on gen nodes and on user Indexed/Keyed collections** (every representation tag whose
+array and object kinds are not reached by reflection), the machines, every configuration with has.go's kind
+lists complete, every tree, every path not ending in a bare descent: the first of / whether there are results
+of Get on the plain data -/
+theorem C11_first_has_untyped (cfg : Cfg) (hd : cfg.hasTypedDescent = false) (hh : cfg.hasTypedMap = false)
+    (rep : Rep) (ha : rep.ak.typed = false) (ho : rep.ok.typed = false)
+    (x : List Frag) (d : JV) (ht : endsInDescent x = false) :
+    firstMach cfg rep x d = (getM cfg Rep.simple x d).head? ∧
+    hasMach cfg rep x d = !(getM cfg Rep.simple x d).isEmpty := by
+  have hcut : (cfg.typedMapWild && decide (rep.ok = OKind.rmap)) = false := by
+    have := (untyped_facts rep ha ho).1
+    simp [this]
+  refine ⟨?_, ?_⟩
+  · rw [firstMach_eq_firstM cfg rep hcut x d ht, ← C11_first cfg x d]
+    simp only [firstM, first_sel_untyped cfg rep ha ho]
+  · rw [hasMach_eq_hasM cfg rep hd hh hcut x d ht, ← C11_has_machine cfg hd x d ht,
+      hasMach_eq_hasM cfg Rep.simple hd hh (C05.simple_not_cut cfg) x d ht]
+    simp only [hasM, has_sel_untyped cfg rep ha ho]
+
+/-- the hypotheses hold for gen data and for Indexed/Keyed collections -/
+example : (Rep.gen.ak.typed = false ∧ Rep.gen.ok.typed = false) ∧
+    ((⟨.indexed, .keyed⟩ : Rep).ak.typed = false ∧ (⟨.indexed, .keyed⟩ : Rep).ok.typed = false) := by decide
+
 /-- **FirstFound and Has on typed slices and arrays, for the code as it is now, exactly.** The one deviation
 left (`firstTypedSlice`, pinned by TestExprFirst/TestExprHas) is that a slice fragment `[s:e:t]` is read as the
 index `[s]` (`typedView`; nothing if the step is written 0). With that reading of the path, on every typed
@@ -679,6 +708,10 @@ theorem pinned_is_source :
     Gen.JpathFacts.filterRootIsArgument = true ∧
     -- not a flag: no evaluator (nor Filter.withRoot / Expr.rootedFilters / nestedRoot) writes through the Expr or
     -- Filter it is given; rooting a filter makes a new one (seeded C11-m7 rooted the caller's filter in place)
-    Gen.JpathFacts.exprNotWritten = true := by decide
+    Gen.JpathFacts.exprNotWritten = true ∧
+    -- not flags (mixed data and pointers are outside the model): the descent case of Get, FirstFound and Has gives
+    -- every member it pushes a marker of its own (172dffb), a filter follows a pointer (46bed20)
+    Gen.JpathFacts.descentMarkerMissing = false ∧
+    Gen.JpathFacts.filterPointerBlind = false := by decide
 
 end OjgVerif.C11
